@@ -10,6 +10,7 @@ import (
 	"path/filepath"
 	"regexp"
 	"strings"
+	"sync"
 
 	"golang.org/x/tools/go/packages"
 	"golang.org/x/tools/go/ssa"
@@ -26,6 +27,23 @@ type World struct {
 	allPk  []*packages.Package
 	repo   string
 	instrs map[string]int // encoded function -> instruction count (filled during runs)
+	imu    sync.Mutex
+}
+
+func (w *World) noteFuncs(fs map[*ssa.Function]bool) {
+	w.imu.Lock()
+	defer w.imu.Unlock()
+	for f := range fs {
+		name := f.String()
+		if _, ok := w.instrs[name]; ok {
+			continue
+		}
+		n := 0
+		for _, b := range f.Blocks {
+			n += len(b.Instrs)
+		}
+		w.instrs[name] = n
+	}
 }
 
 var stubRe = regexp.MustCompile(`(?m)^//verif:stub\s+(\S+)\s+(\S+)`)
